@@ -824,6 +824,10 @@ class SyncObj(object):
             ver = pickle.loads(command[1:])
             if self.__selfCodeVersion < ver:
                 raise SyncObjExceptionWrongVer(ver)
+            if ver < self.__enabledCodeVersion:
+                # Submitted while a higher version was on its way (the submitter's check could not see it):
+                # the enabled version never goes down
+                return
             oldVer = self.__enabledCodeVersion
             self.__enabledCodeVersion = ver
             callback = self.__conf.onCodeVersionChanged
